@@ -573,6 +573,7 @@ theorem oneOf_allOf_fresh_today :
     HoldsFor Generated.aliasing .setattr (.wrapN .allOf .firstFit [.coll .map (.coll .array (.scalar .number))]) :=
   ⟨C19_today _ _ (by decide +kernel), C19_today _ _ (by decide +kernel), C19_today _ _ (by decide +kernel)⟩
 
+-- BEGIN finding:misfit
 /-- an open finding as an explicit history: `AnyOf[Array[Integer], Enum(values=…)]`; `<field>.serialize` of the stored
     list (cell 1, which the instance, cell 0, refers to) hands the value to the Enum option, which returns it: the
     "document" IS cell 1, and emptying it empties the instance's field -/
@@ -584,6 +585,35 @@ theorem anyOf_misfit_hands_out_stored :
       (runScript out.1 [1] [.write 1 ⟨"list", []⟩]).1.cells 1 ≠ witnessHeap.cells 1 ∧
       (observeN 3 (runScript out.1 [1] [.write 1 ⟨"list", []⟩]).1 (.ref 0)).beq (observeN 3 out.1 (.ref 0)) = false := by
   refine ⟨by decide +kernel, by decide +kernel, by decide +kernel⟩
+-- END finding:misfit
+
+-- BEGIN finding:tupl
+/-- cell 0: kwargs {f: cell 1}; cell 1: the tuple (cell 2, 2); cell 2: the caller's list inside the tuple -/
+def tupleHeap : Heap :=
+  Heap.ofList [⟨"dict", [("f", .ref 1)]⟩, ⟨"tuple", [("0", .ref 2), ("1", .atom 2)]⟩, ⟨"list", [("0", .atom 4)]⟩]
+
+def tupleShape : Shape :=
+  .keyed .root [("f", .wrapN .oneOf .firstFit [.keyed .tuplePos [("0", .coll .array (.scalar .string)), ("1", .scalar .number)],
+                                               .scalar .string])]
+
+/-- an open finding as an explicit history: `OneOf[Tuple[Array[String], Integer], String]` given a tuple keeps the
+    tuple as it is (typedpy's private copy covers the mutable kinds only): the caller's list inside it (cell 2, reachable
+    from the kwargs the caller passed, cell 0) is the instance's; emptying it afterwards changes the instance -/
+theorem oneOf_keeps_tuple_elements :
+    let out := transfer (modeOf Generated.aliasing .construct) 5 tupleShape tupleHeap (.ref 0)
+    ∃ inst, out.2 = some inst ∧
+      Held out.1 [0] 2 ∧
+      observeN 4 (runScript out.1 [0] [.write 2 ⟨"list", []⟩]).1 inst ≠ observeN 4 out.1 inst := by
+  refine ⟨.ref 3, by decide +kernel, reachList_sound _ 3 (.ref 0) 2 (by decide +kernel), ?_⟩
+  intro h
+  have : (observeN 4 (runScript (transfer (modeOf Generated.aliasing .construct) 5 tupleShape tupleHeap (.ref 0)).1 [0]
+      [.write 2 ⟨"list", []⟩]).1 (.ref 3)).beq
+      (observeN 4 (transfer (modeOf Generated.aliasing .construct) 5 tupleShape tupleHeap (.ref 0)).1 (.ref 3)) = false := by
+    decide +kernel
+  rw [h] at this
+  revert this
+  decide +kernel
+-- END finding:tupl
 
 /-- the unsafe in-scope rows of today's table are exactly the listed ones -/
 theorem only_listed_rows_unsafe_today :
@@ -592,6 +622,7 @@ theorem only_listed_rows_unsafe_today :
        fun r => r.op == k.1 && r.kind == k.2.1 && r.cat == k.2.2)) = true := by
   decide +kernel
 
+-- BEGIN statement-fails
 /-- the full statement is still false of today's code (the misfit delegation of `AnyOf.serialize`) -/
 theorem C19_statement_fails_today : ¬ C19_statement Generated.aliasing := by
   intro st
@@ -601,6 +632,7 @@ theorem C19_statement_fails_today : ¬ C19_statement Generated.aliasing := by
   refine (hf.2 (.ref 1) hres).1 [.write 1 ⟨"list", []⟩] ?_ 1 (by decide)
   simp only [AdmissibleAll, Admissible, and_true]
   refine ⟨⟨1, by simp [roots], Reach.refl _⟩, fun k hk => by simp [Cell.kids] at hk⟩
+-- END statement-fails
 
 /-- what was the flagship finding now holds: fast serialization (and `<field>.serialize`) of scalar-item
     and untyped collections — Array[Integer], Array[String], untyped Array / Deque / Map, also nested — is
